@@ -23,6 +23,16 @@ def run(ctx):
                 if int(m.group(2)): ctx.broken.append('correspondence dist: the real dist_or_local_compile reacts differently from distDecide / the exit-status mapping on %s cases: %s' % (m.group(2), out[:500].replace('\n', ' ')))
             ctx.evaluations += s['cases'] + s.get('history_steps', 0); ctx.distinct_nontrivial += s['cases'] + s.get('history_steps', 0); ctx.cov['history_steps'] = s.get('history_steps', 0); ctx.samples += s['samples'][:2]; ctx.cov['fault_cases'] = s['cases']; ctx.cov['exhaustive'] = True
             monitor_failures(ctx, s['monitor_failures'], findings, 'h_dist monitor', rp)
+    # the argument vector that travels: real generate_compile_commands (both rewrite_includes_only settings) vs ArgsM.distRegen
+    translate(ctx, ['args'])
+    if cargo_harness(ctx, ['h_args']):
+        w = ctx.work; e = env_offline(); e['VERIF_SEED'] = str(ctx.seed * 3 + 1)
+        n = 6000 if ctx.quick() else 200000
+        rc, out, dt = sh([harness_bin('h_args'), 'gen', str(n), f'{w}/args.trace', f'{w}/args.json'], env=e, timeout=7200)
+        if rc != 0: ctx.broken.append('h_args crashed: ' + out[-300:])
+        else:
+            run_modeld(ctx, 'args', f'{w}/args.trace', 'dist-args')
+            sa = json.load(open(f'{w}/args.json')); ctx.evaluations += sa['parsed_ok'] * 2; ctx.cov['dist_command_lines'] = sa['parsed_ok'] * 2
     if cargo_repo_bins(ctx, ('sccache', 'sccache-dist')):
         res = sys_c13.run(os.path.join(ctx.work, 'sys'), 'c13')
         ctx.evaluations += res['requests']; ctx.samples += res['samples'][:1]; ctx.cov['system_requests'] = res['requests']
@@ -40,7 +50,7 @@ def run(ctx):
     ctx.rules.append('h_dist: one case per (stage x error class) of the scripted dist::Client — toolchain put {other, 4xx, too large}, alloc {no capacity, error, 4xx}, submit {job unknown, cannot cache, error}, '
                      'run {error, 4xx, job unknown, exit 1/2/42/127/255}, output write {first, second unwritable} — exhaustive over the model alphabet; system: scheduler down, real scheduler without build servers, wrong token; h_dist phase 2: a 9-step history (failing request twice, repair, repeat, result entries removed while preprocessor entries stay, header edit, repeat, break again twice) against a real disk cache in preprocessor-cache mode with a build server that records the unit it is handed')
     ctx.assumptions += ['h_dist: an emulated build server (scripted dist::Client); real cluster: bubblewrap replaced by tools/fake_bwrap.c (chroot, no namespaces)']
-    ctx.notes.append('the real cluster exercises toolchain packaging, upload, overlay mount, input unpack and output collection end to end; bubblewrap itself and HTTPS to the build server are replaced / local; the remote argument vector (distArgs) is not modelled yet — partial')
+    ctx.notes.append('the real cluster exercises toolchain packaging, upload, overlay mount, input unpack and output collection end to end; bubblewrap itself and HTTPS to the build server are replaced / local; the remote argument vector is modelled (ArgsM.distRegen, dist_command_shape) and tied by h_args for gcc / clang — partial for the other compiler back ends')
 
 def replay(ctx, path):
     print(open(path).read()); return 0
